@@ -208,3 +208,92 @@ pub fn tu2_obs(fun: &str, x: u32, y: u32, z: u32) -> Option<Obs> {
     });
     if known { Some(o) } else { None }
 }
+
+// ------------------------------------------------------------------------------------------ C04: range of constructed messages
+
+/// First cell of an `observe` vector (no leading from_bytes cell) that holds a value outside the range of the
+/// restricted integer type it was read from; None when every value is in range (or the constructor panicked).
+pub fn range_violation(o: &Obs) -> Option<usize> {
+    let c = &o.0;
+    if c.len() < 43 { return None; }
+    let le = |i: usize, max: i64| c[i] == NONE || (0 <= c[i] && c[i] <= max);
+    let bytes_ok = |i: usize| (128..=255).contains(&c[i]) && le(i + 1, 127) && le(i + 2, 127);
+    let structured_ok = |i: usize| match c[i] {
+        0..=5 => le(i + 1, 15) && le(i + 2, 127) && le(i + 3, 127),
+        6 => le(i + 1, 15) && le(i + 2, 16383),
+        8 => le(i + 1, 7) && le(i + 2, 15) && le(i + 3, 3),
+        9 => le(i + 1, 16383),
+        10 => le(i + 1, 127),
+        _ => true,
+    };
+    let checks: [(usize, bool); 17] = [
+        (0, bytes_ok(0)), (3, bytes_ok(3)), (9, le(9, 15)), (10, le(10, 127)), (11, le(11, 127)), (12, le(12, 127)),
+        (13, le(13, 127)), (14, le(14, 127)), (15, le(15, 127)), (16, le(16, 16383)), (22, structured_ok(22)),
+        (26, bytes_ok(26)), (29, structured_ok(29)), (33, bytes_ok(33)), (36, bytes_ok(36)), (39, structured_ok(39)), (42, true),
+    ];
+    checks.iter().find(|(_, ok)| !ok).map(|(i, _)| *i)
+}
+
+/// every argument tuple of every named and generic constructor: all values read back are in range
+pub fn range_sweep(out: &mut crate::Out, impls: &[&str]) {
+    let (mut swept, mut bad) = (0u64, 0u64);
+    for which in impls {
+        for k in CTORS {
+            let blocks: u32 = match k {
+                "note_off" | "note_on" | "polyphonic_key_pressure" | "control_change" | "program_change" | "channel_pressure" | "pitch_bend_change" => 16,
+                "time_code_quarter_frame" => 8,
+                _ => 1,
+            };
+            for a in 0..blocks {
+                let (nb, nc) = blk_ranges(k, a);
+                for b in 0..nb {
+                    for c in 0..nc {
+                        let (x, y, z) = blk_args(k, a, b, c);
+                        if let Some(o) = mk_obs(which, k, x, y, z) {
+                            swept += 1;
+                            if let Some(i) = range_violation(&o) {
+                                bad += 1;
+                                if bad <= 8 { out.oracle("c04-constructed-message-in-range", &format!("which={} ctor={} a={} b={} c={} cell={}", which, k, x, y, z, i), false); }
+                            }
+                        }
+                    }
+                }
+            }
+        }
+        for fun in ["channel_message", "system_common_message", "system_real_time_message"] {
+            for t in (128u32..240).step_by(16).chain(240..256) {
+                if category(t) != fun_category(fun) { continue; }
+                let chans = if fun == "channel_message" { 16 } else { 1 };
+                let n = if fun == "system_real_time_message" { 1 } else { 128 };
+                for c in 0..chans {
+                    for a in 0..n {
+                        for b in 0..n {
+                            if let Some(o) = gen_obs(which, fun, t, c, a, b) {
+                                swept += 1;
+                                if let Some(i) = range_violation(&o) {
+                                    bad += 1;
+                                    if bad <= 8 { out.oracle("c04-constructed-message-in-range", &format!("which={} gen={} t={} ch={} a={} b={} cell={}", which, fun, t, c, a, b, i), false); }
+                                }
+                            }
+                        }
+                    }
+                }
+            }
+        }
+    }
+    out.oracle("c04-all-constructed-messages-in-range", &format!("swept={} out_of_range={}", swept, bad), bad == 0);
+    out.stat("evaluations", swept);
+    out.stat("nontrivial", swept);
+}
+
+/// replay of one `c04-constructed-message-in-range` oracle line
+pub fn range_oracle(m: &std::collections::HashMap<String, String>) -> Option<bool> {
+    let n = |k: &str| -> Option<u32> { m.get(k)?.parse().ok() };
+    let which = m.get("which")?;
+    let o = if let Some(k) = m.get("ctor") {
+        mk_obs(which, k, n("a")?, n("b")?, n("c")?)?
+    } else {
+        gen_obs(which, m.get("gen")?, n("t")?, n("ch")?, n("a")?, n("b")?)?
+    };
+    Some(range_violation(&o).is_none())
+}
